@@ -234,7 +234,7 @@ func (c *Check) finish(explanation string) int {
 	if len(samples) == 0 {
 		samples = append(samples, map[string]string{"note": "no obligations generated"})
 	}
-	var assum []string
+	assum := []string{}
 	for a := range c.assum {
 		assum = append(assum, a)
 	}
